@@ -17,6 +17,15 @@ _SCHED_NOTE = ('Choice points only where the event loop\'s ready queue is empty 
                'choice); worker jobs atomic; protocol time-outs (30 s) never fire; scripted daemon; fake '
                'plyvel stand-in.')
 CHECKS = {
+    'C11': ('exploration',
+            'exhaustive enumeration of proofs over chain histories + stateless schedule exploration of proofs in flight across a reorganisation',
+            'A: four chain histories with blocks of 1..300 transactions (direct and cached merkle path), '
+            'also after reorganisations replacing large blocks by other large blocks: every block x '
+            'positions x six proof request kinds over the wire must fold to the header\'s merkle root, '
+            'every (h <= cp <= tip) header proof to the reference root, everything outside the chain '
+            'refused.  B: proof requests in flight while blocks are undone, every choice vector with '
+            '<= 1/2 deviations: a reply is an error or verifies against a chain the daemon had; after '
+            'quiescence all proofs verify again.', _SCHED_NOTE, '3/C11'),
     'C10': ('exploration',
             'stateless schedule exploration with iterative deviation bounding of the full system, queries judged at quiescence',
             'The C07 scenario family with cache-populating queries before, during (also while blocks are '
